@@ -3,6 +3,9 @@ macro_rules! registry {
     ($action:ident, $id:expr, $ctx:expr, $path:expr) => {
         match $id {
             "C01" => dispatch!($action, props::c01::C01, $ctx, $path),
+            "C13" => dispatch!($action, props::c13::C13, $ctx, $path),
+            "C19" => dispatch!($action, props::c19::C19, $ctx, $path),
+            "C20" => dispatch!($action, props::c20::C20, $ctx, $path),
             _ => {
                 eprintln!("unknown property {}", $id);
                 2
